@@ -107,6 +107,10 @@ def gen_plan(prop, r, tier, run):
     n = r.weighted([(1, 0), (1, 1), (6, r.randint(2, 10))])
     cfg = {'table': r.pick(['t', 'elements', 'T1']), 'columns': cols,
            'rows': gen_rows(r, cols, n)}
+    if r.chance(0.4):
+        # a database file shared with another writer on its own connection
+        cfg['db_file'] = True
+        cfg['wal'] = r.chance(0.6)
     ops = []
     if r.chance(0.3):
         ops.append({'op': 'insert', 'rows': gen_rows(r, cols,
@@ -118,8 +122,14 @@ def gen_plan(prop, r, tier, run):
     for _ in range(r.weighted([(2, 0), (5, 1), (2, 2), (1, 3)])):
         k = r.weighted([(7, 'rogue'), (1, 'rediscover'), (0.5, 'delete_all')])
         if k == 'rogue':
+            if r.chance(0.3):
+                # an earlier call on tdda's connection goes wrong part-way
+                ops.append({'op': 'failed_call',
+                            'how': r.pick(['missing_tdda', 'missing_table',
+                                           'bad_tdda'])})
             ops.append({'op': 'rogue_insert', 'pick': r.random(),
-                        'pick2': r.random(), 'commit': r.chance(0.65)})
+                        'pick2': r.random(), 'commit': r.chance(0.65),
+                        'other_conn': r.chance(0.6)})
             ops.append({'op': 'verify'})
         elif k == 'rediscover':
             ops.append({'op': 'discover', 'rex': r.chance(0.5)})
@@ -214,11 +224,20 @@ def execute(plan):
         sys.stderr = io.StringIO()
         conn = None
         try:
-            conn = drivers.database_connection_sqlite(None, None, ':memory:',
+            dbname = ':memory:'
+            ctx.wconn = None
+            if cfg.get('db_file'):
+                import sqlite3
+                dbname = W.path('data', 'shared.sqlite3')
+                ctx.wconn = sqlite3.connect(dbname, timeout=0.05)
+                if cfg.get('wal'):
+                    ctx.wconn.execute('PRAGMA journal_mode=WAL')
+                ctx.stats['probes']['database_file_with_second_writer'] += 1
+            conn = drivers.database_connection_sqlite(None, None, dbname,
                                                       None, None)
             ctx.conn = conn
             ctx.db = drivers.DBConnector(conn, None, host=None, port=None,
-                                         database=':memory:', user=None)
+                                         database=dbname, user=None)
             ctx.table = cfg['table']
             ctx.cols = cfg['columns']
             cur = conn.cursor()
@@ -229,9 +248,25 @@ def execute(plan):
             ctx.cs_path = W.path('data', 'table.tdda')
             ctx.clean = False       # table unchanged since discovery?
             ctx.rogue = None
+            import sqlite3
             for op in plan['ops']:
-                OPS[op['op']](ctx, op)
+                try:
+                    OPS[op['op']](ctx, op)
+                except sqlite3.OperationalError as e:
+                    if 'locked' not in str(e):
+                        raise
+                    # one of the simulator's own writes could not go ahead
+                    # (a lock is being held): the history ends here
+                    ctx.stats['abstain']['simulator_write_blocked'] += 1
+                    ctx.events.append({'i': op['i'], 'op': op['op'],
+                                       'outcome': 'blocked'})
+                    break
         finally:
+            if getattr(ctx, 'wconn', None) is not None:
+                try:
+                    ctx.wconn.close()
+                except Exception:
+                    pass
             if getattr(ctx, 'conn', None) is not None:
                 ctx.conn.close()
             elif conn is not None:
@@ -249,7 +284,22 @@ def execute(plan):
             'sim_time': 0}
 
 
-def insert_rows(ctx, rows, commit=True):
+def insert_rows(ctx, rows, commit=True, other=False):
+    if other and ctx.wconn is not None:
+        # the other writer, on its own connection, always commits
+        import sqlite3
+        ph = ', '.join('?' for _ in ctx.cols)
+        try:
+            for row in rows:
+                ctx.wconn.execute('INSERT INTO %s VALUES (%s)'
+                                  % (ctx.table, ph), row)
+            ctx.wconn.commit()
+        except sqlite3.OperationalError:
+            ctx.wconn.rollback()
+            ctx.stats['abstain']['other_writer_blocked'] += 1
+            return False
+        ctx.stats['faults']['write_by_other_connection'] += 1
+        return True
     cur = ctx.conn.cursor()
     ph = ', '.join('?' for _ in ctx.cols)
     for row in rows:
@@ -261,6 +311,7 @@ def insert_rows(ctx, rows, commit=True):
         # handed to tdda: its rows are part of the table as that connection
         # sees it
         ctx.stats['faults']['write_left_uncommitted'] += 1
+    return True
 
 
 def op_insert(ctx, op):
@@ -282,7 +333,7 @@ def op_delete_all(ctx, op):
 
 def op_recreate(ctx, op):
     from tdda.constraints.db import drivers
-    if op['how'] == 'newdb':
+    if op['how'] == 'newdb' and ctx.wconn is None:
         ctx.conn.close()
         ctx.conn = drivers.database_connection_sqlite(None, None, ':memory:',
                                                       None, None)
@@ -308,6 +359,34 @@ def op_recreate(ctx, op):
     ctx.shape.append('X%s%d' % (op['how'][0], len(changed)))
     ctx.events.append({'i': op['i'], 'op': 'recreate', 'how': op['how'],
                        'changed': changed})
+
+
+def op_failed_call(ctx, op):
+    """A call on tdda's connection that goes wrong part-way; the caller
+    catches the error and carries on with the same connection."""
+    from tdda.constraints import verify_db_table, discover_db_table
+    try:
+        if op['how'] == 'missing_tdda':
+            verify_db_table('sqlite', ctx.db, ctx.table,
+                            ctx.W.path('data', 'no-such.tdda'), testing=True)
+        elif op['how'] == 'bad_tdda':
+            p = ctx.W.path('data', 'broken.tdda')
+            with io.open(p, 'w') as f:
+                f.write('{"fields": {"a": {"min": ')
+            verify_db_table('sqlite', ctx.db, ctx.table, p, testing=True)
+        else:
+            discover_db_table('sqlite', ctx.db, 'no_such_table')
+        out = 'ok'
+    except WatchdogTimeout:
+        raise
+    except BaseException as e:
+        if isinstance(e, KeyboardInterrupt):
+            raise
+        out = type(e).__name__
+    ctx.stats['faults']['earlier_call_failed_part_way'] += 1
+    ctx.shape.append('F')
+    ctx.events.append({'i': op['i'], 'op': 'failed_call', 'how': op['how'],
+                       'outcome': out})
 
 
 def text_class(ctx):
@@ -472,7 +551,9 @@ def op_rogue_insert(ctx, op):
             continue
         row = list(base_row) if base_row is not None else [None] * len(names)
         row[names.index(f)] = val
-        insert_rows(ctx, [row], commit=op.get('commit', True))
+        if not insert_rows(ctx, [row], commit=op.get('commit', True),
+                           other=op.get('other_conn', False)):
+            return
         ctx.clean = False
         ctx.rogue = {'field': f, 'kind': k, 'value': v, 'row': row}
         ctx.stats['faults']['rogue_' + k] += 1
@@ -542,7 +623,7 @@ def rogue_value(ctx, f, kind, v, pick2):
 
 OPS = {'insert': op_insert, 'discover': op_discover, 'verify': op_verify,
        'rogue_insert': op_rogue_insert, 'delete_all': op_delete_all,
-       'recreate': op_recreate}
+       'recreate': op_recreate, 'failed_call': op_failed_call}
 
 
 def shrink(plan):
